@@ -47,6 +47,7 @@ type replayRule struct {
 	Pkg      string            `json:"pkg"`      // package directory relative to /repo
 	Tags     string            `json:"tags"`
 	Params   map[string]string `json:"params"` // name -> model term pattern or literal "=value"
+	Race     bool              `json:"race"`   // run under the race detector; a DATA RACE report counts as reproduced
 }
 
 func safeName(s string) string {
@@ -215,6 +216,9 @@ func execReplay(root string, rule replayRule, body string, params map[string]str
 	if rule.Tags != "" {
 		args = append(args, "-tags", rule.Tags)
 	}
+	if rule.Race {
+		args = append(args, "-race")
+	}
 	args = append(args, ".")
 	cmd := exec.Command("go", args...)
 	cmd.Dir = pkgDir
@@ -239,7 +243,7 @@ func execReplay(root string, rule replayRule, body string, params map[string]str
 	}
 	run := &ReplayRun{Template: rule.Template, Params: params, Cmd: "go " + strings.Join(args, " ") + " (in " + pkgDir + ")", Output: o}
 	// the driver prints REPRODUCED when the real code misbehaves as the failed obligation says
-	run.Reproduced = strings.Contains(o, "REPRODUCED")
+	run.Reproduced = strings.Contains(o, "REPRODUCED") || (rule.Race && strings.Contains(o, "WARNING: DATA RACE"))
 	return run
 }
 
